@@ -364,6 +364,11 @@ func convertPublicKeys(pubKeys []document.PublicKey) []interface{} {
 func applyRemovePublicKeys(doc document.Document, entry interface{}) (document.Document, error) {
 	logger.Debug("Applying remove public keys patch", logfields.WithPatch(entry))
 
+	if _, ok := doc[document.PublicKeyProperty]; !ok {
+		// nothing to remove from: absent ids are ignored and the document stays as it is
+		return doc, nil
+	}
+
 	keysToRemove := sliceToMap(document.StringArray(entry))
 
 	var newPublicKeys []interface{}
@@ -450,6 +455,11 @@ func convertServices(services []document.Service) []interface{} {
 func applyRemoveServiceEndpoints(doc document.Document, entry interface{}) (document.Document, error) {
 	logger.Debug("Applying remove service endpoints patch", logfields.WithPatch(entry))
 
+	if _, ok := doc[document.ServiceProperty]; !ok {
+		// nothing to remove from: absent ids are ignored and the document stays as it is
+		return doc, nil
+	}
+
 	didDoc := document.DidDocumentFromJSONLDObject(doc.JSONLdObject())
 	servicesToRemove := sliceToMap(document.StringArray(entry))
 
@@ -515,6 +525,11 @@ func interfaceArray(values []string) []interface{} {
 
 func applyRemoveAlsoKnownAs(doc document.Document, entry interface{}) (document.Document, error) {
 	logger.Debug("Applying remove also-known-as patch", logfields.WithPatch(entry))
+
+	if _, ok := doc[document.AlsoKnownAs]; !ok {
+		// nothing to remove from: absent URIs are ignored and the document stays as it is
+		return doc, nil
+	}
 
 	didDoc := document.DidDocumentFromJSONLDObject(doc.JSONLdObject())
 	urisToRemove := sliceToMap(document.StringArray(entry))
